@@ -284,6 +284,12 @@ func (x *Exec) havocSV(name string) {
 	if name == "alloc" {
 		x.smt.assume("(>= " + nt + " " + old + ")")
 	}
+	if sortName == "Slice" && name != "alloc" {
+		// a slice-valued variable: its backing array is an allocated object
+		if a, ok := x.st["alloc"]; ok {
+			x.smt.assume("(and (>= (sref " + nt + ") 0) (< (sref " + nt + ") " + a + ") (>= (slen " + nt + ") 0) (>= (soff " + nt + ") 0))")
+		}
+	}
 	x.written[name] = true
 	if x.refWrites != nil {
 		if x.refWrites[name] == nil {
